@@ -98,6 +98,9 @@ pub enum Step {
     Buckets { path: Path },
     KvPairs { path: Path },
     Check,
+    /// media damage at rest (C06): before the next open of the existing file the header page
+    /// that is *not* current is damaged in way `kind`; the open must still not touch the file
+    DamageOlderHeader { kind: u8 },
 }
 
 fn path_json(p: &Path) -> Value {
@@ -165,6 +168,7 @@ impl Step {
             Step::Buckets { .. } => "buckets",
             Step::KvPairs { .. } => "kv_pairs",
             Step::Check => "check",
+            Step::DamageOlderHeader { .. } => "damage_older_header",
         }
     }
 
@@ -215,6 +219,7 @@ impl Step {
                 json!({ "op": op })
             }
             Step::CloseReader { idx } => json!({"op": op, "idx": idx}),
+            Step::DamageOlderHeader { kind } => json!({"op": op, "kind": kind}),
             Step::Put { path, key, val, via } => {
                 json!({"op": op, "path": path_json(path), "key": key.to_json(), "val": val.to_json(), "via": via_s(*via)})
             }
@@ -254,6 +259,7 @@ impl Step {
             "reopen" => Step::Reopen,
             "open_reader" => Step::OpenReader,
             "check" => Step::Check,
+            "damage_older_header" => Step::DamageOlderHeader { kind: v.get("kind")?.as_u64()? as u8 },
             "close_reader" => Step::CloseReader { idx: v.get("idx")?.as_u64()? as u32 },
             "put" => Step::Put { path: path()?, key: blob("key")?, val: blob("val")?, via: via() },
             "delete" => Step::Delete { path: path()?, key: blob("key")? },
